@@ -29,6 +29,10 @@ pub enum Op {
     Close { doc: String },
     Barrier,
     Request { kind: String, doc: String, pos: [u32; 2] },
+    /// The file of a module that is not open disappears from the disk (another program removes
+    /// it); the generator lets a notification about another document follow, because a server
+    /// without file watching only looks at the disk again when it is told about a change.
+    Delete { doc: String },
 }
 
 #[derive(Clone, Debug, Serialize, Deserialize, PartialEq)]
@@ -93,10 +97,16 @@ pub fn check_history(h: &History, r: &mut CaseReport) {
     };
     // The client-side model of the open documents.
     let mut open: BTreeMap<String, String> = BTreeMap::new();
+    let mut deleted: BTreeSet<String> = BTreeSet::new();
     let mut messages = 0u64;
     for (i, op) in h.ops.iter().enumerate() {
         messages += 1;
         let res = match op {
+            Op::Delete { doc } => {
+                let _ = std::fs::remove_file(ws.dir.path.join(doc));
+                deleted.insert(doc.clone());
+                Ok(())
+            }
             Op::Open { doc, text } => {
                 open.insert(doc.clone(), text.clone());
                 lsp.did_open(&ws.uri(doc), text)
@@ -167,6 +177,9 @@ pub fn check_history(h: &History, r: &mut CaseReport) {
     // Answers at sampled positions (identifier-looking starts plus a grid).
     let mut asked = 0u64;
     for (doc, disk) in &h.files {
+        if deleted.contains(doc) && !open.contains_key(doc) {
+            continue;
+        }
         let text = open.get(doc).unwrap_or(disk);
         let mut offsets: BTreeSet<usize> = BTreeSet::new();
         let mut o = 0usize;
@@ -221,6 +234,11 @@ pub fn check_history(h: &History, r: &mut CaseReport) {
 /// Structural labels of the program the server currently sees (preconditions of known findings).
 fn label_final_state(h: &History, open: &BTreeMap<String, String>, r: &mut CaseReport) {
     let mut files = h.files.clone();
+    for op in &h.ops {
+        if let Op::Delete { doc } = op {
+            files.remove(doc);
+        }
+    }
     for (d, t) in open {
         files.insert(d.clone(), t.clone());
     }
@@ -411,6 +429,66 @@ pub fn gen_history(t: &mut Tape, r: &mut CaseReport) -> History {
                 let p = pos_of(text, off);
                 let kind = t.pick(&["definition", "references", "prepareRename"]).to_owned();
                 ops.push(Op::Request { kind, doc, pos: [p.0, p.1] });
+            }
+        }
+    }
+    // One history in eight: a module that is not open (and not opened later) is removed from the
+    // disk at some point, and the editor then touches the main module.
+    if names.len() >= 2 && t.chance(1, 8) {
+        let victim = t.pick_ref(&names[..]).clone();
+        if victim != main {
+            // After the last operation that mentions the victim.
+            let last = ops.iter().rposition(|op| match op {
+                Op::Open { doc, .. } | Op::Change { doc, .. } | Op::Close { doc } | Op::Request { doc, .. } | Op::Delete { doc } => *doc == victim,
+                Op::Barrier => false,
+            });
+            let from = last.map_or(0, |i| i + 1);
+            // The victim must be closed at that point.
+            let mut is_open = false;
+            for op in &ops[..from] {
+                match op {
+                    Op::Open { doc, .. } if *doc == victim => is_open = true,
+                    Op::Close { doc } if *doc == victim => is_open = false,
+                    _ => {}
+                }
+            }
+            if !is_open {
+                let at = t.range(from, ops.len());
+                // The state of the main module at that point.
+                let mut main_text: Option<String> = None;
+                for op in &ops[..at] {
+                    match op {
+                        Op::Open { doc, text } if *doc == main => main_text = Some(text.clone()),
+                        Op::Close { doc } if *doc == main => main_text = None,
+                        Op::Change { doc, edits } if *doc == main => {
+                            if let Some(cur) = main_text.as_mut() {
+                                for (rg, new) in edits {
+                                    match rg {
+                                        None => *cur = new.clone(),
+                                        Some([a, b, c, d]) => {
+                                            if let Ok(x) = apply_edits(cur, &[(((*a, *b), (*c, *d)), new.clone())]) {
+                                                *cur = x;
+                                            }
+                                        }
+                                    }
+                                }
+                            }
+                        }
+                        _ => {}
+                    }
+                }
+                let touch = match main_text {
+                    Some(text) => Op::Change { doc: main.clone(), edits: vec![(None, text)] },
+                    None => Op::Open { doc: main.clone(), text: files[&main].clone() },
+                };
+                // If main gets opened here, a later Open of main in the history would be a protocol
+                // error: only insert when main is not opened later.
+                let opened_later = ops[at..].iter().any(|op| matches!(op, Op::Open { doc, .. } if *doc == main));
+                if matches!(touch, Op::Change { .. }) || !opened_later {
+                    ops.insert(at, touch);
+                    ops.insert(at, Op::Delete { doc: victim });
+                    r.label("with-delete");
+                }
             }
         }
     }
